@@ -4,8 +4,30 @@
 //! It is an association list: the claims made by the verification harnesses are therefore
 //! "modulo hashbrown being a finite map". There is deliberately no iterator, so a future
 //! dependency on iteration order fails to compile under the guard.
+use std::any::Any;
 use std::borrow::Borrow;
 use std::fmt::{Debug, Formatter};
+
+/// Key equality of the stand-in. Identical to `Eq` except for `*const dyn Any`, where only the
+/// data address is compared: Kani rejects comparisons of vtable pointers as unstable.
+pub trait KeyEq {
+    fn key_eq(&self, other: &Self) -> bool;
+}
+
+macro_rules! key_eq_by_eq {
+    ($($t:ty),*) => { $(impl KeyEq for $t {
+        fn key_eq(&self, other: &Self) -> bool {
+            self == other
+        }
+    })* };
+}
+key_eq_by_eq!(str, String, u8, crate::StringId, crate::RefId);
+
+impl KeyEq for *const dyn Any {
+    fn key_eq(&self, other: &Self) -> bool {
+        (*self as *const ()) == (*other as *const ())
+    }
+}
 
 pub struct HashMap<K, V> {
     entries: Vec<(K, V)>,
@@ -25,18 +47,18 @@ impl<K, V> Debug for HashMap<K, V> {
     }
 }
 
-impl<K: Eq, V> HashMap<K, V> {
+impl<K: KeyEq, V> HashMap<K, V> {
     pub fn new() -> Self {
         Self::default()
     }
 
-    fn index_of<Q: ?Sized + Eq>(&self, key: &Q) -> Option<usize>
+    fn index_of<Q: ?Sized + KeyEq>(&self, key: &Q) -> Option<usize>
     where
         K: Borrow<Q>,
     {
         let mut idx = 0;
         while idx < self.entries.len() {
-            if self.entries[idx].0.borrow() == key {
+            if self.entries[idx].0.borrow().key_eq(key) {
                 return Some(idx);
             }
             idx += 1;
@@ -44,7 +66,7 @@ impl<K: Eq, V> HashMap<K, V> {
         None
     }
 
-    pub fn get<Q: ?Sized + Eq>(&self, key: &Q) -> Option<&V>
+    pub fn get<Q: ?Sized + KeyEq>(&self, key: &Q) -> Option<&V>
     where
         K: Borrow<Q>,
     {
@@ -54,7 +76,7 @@ impl<K: Eq, V> HashMap<K, V> {
         }
     }
 
-    pub fn get_mut<Q: ?Sized + Eq>(&mut self, key: &Q) -> Option<&mut V>
+    pub fn get_mut<Q: ?Sized + KeyEq>(&mut self, key: &Q) -> Option<&mut V>
     where
         K: Borrow<Q>,
     {
@@ -64,7 +86,7 @@ impl<K: Eq, V> HashMap<K, V> {
         }
     }
 
-    pub fn contains_key<Q: ?Sized + Eq>(&self, key: &Q) -> bool
+    pub fn contains_key<Q: ?Sized + KeyEq>(&self, key: &Q) -> bool
     where
         K: Borrow<Q>,
     {
@@ -89,7 +111,7 @@ impl<K: Eq, V> HashMap<K, V> {
     }
 }
 
-impl<K: Eq, V> FromIterator<(K, V)> for HashMap<K, V> {
+impl<K: KeyEq, V> FromIterator<(K, V)> for HashMap<K, V> {
     fn from_iter<T: IntoIterator<Item = (K, V)>>(iter: T) -> Self {
         let mut result = Self::new();
         for (k, v) in iter {
@@ -152,7 +174,7 @@ impl<K> Debug for HashSet<K> {
     }
 }
 
-impl<K: Eq> HashSet<K> {
+impl<K: KeyEq> HashSet<K> {
     pub fn new() -> Self {
         Self::default()
     }
@@ -161,7 +183,7 @@ impl<K: Eq> HashSet<K> {
         self.map.insert(key, ()).is_none()
     }
 
-    pub fn contains<Q: ?Sized + Eq>(&self, key: &Q) -> bool
+    pub fn contains<Q: ?Sized + KeyEq>(&self, key: &Q) -> bool
     where
         K: Borrow<Q>,
     {
@@ -169,7 +191,7 @@ impl<K: Eq> HashSet<K> {
     }
 }
 
-impl<K: Eq> FromIterator<K> for HashSet<K> {
+impl<K: KeyEq> FromIterator<K> for HashSet<K> {
     fn from_iter<T: IntoIterator<Item = K>>(iter: T) -> Self {
         let mut result = Self::new();
         for k in iter {
